@@ -59,6 +59,8 @@ class Sched:
         self.chase_label = chase_label
         self._chase = None
         self.chases = 0
+        self.fault_hook = None     # callable(client, gate label) -> exception to raise in that client, or None
+        self.faults_injected = 0
 
     # ------------------------------------------------------------ client side
     def _me(self):
@@ -78,6 +80,12 @@ class Sched:
                     o.status = 'ready'
         c.label = label
         self._yield(c)
+        hook = self.fault_hook
+        if hook is not None:
+            exc = hook(c, label)          # source-free failpoint: the statement / file operation fails in this client
+            if exc is not None:
+                self.faults_injected += 1
+                raise exc
 
     def on_sleep(self, seconds):
         c = self._me()
